@@ -78,7 +78,7 @@ func (c14) NumCases(tier string, seed int64) int {
 		gen = 400
 	}
 	// per corpus file: 3 cases (prefixes, token mutations, mutations with the file's own opener)
-	return n*3 + c14Specials + len(c14DevTargets) + gen
+	return n*3 + c14Specials + len(c14DevTargets) + len(c14ExtHosts) + gen
 }
 
 // tokens splits YANG text into lexical tokens (strings and comments kept whole), with byte offsets.
@@ -218,6 +218,8 @@ func (p c14) Run(c *core.Ctx, idx int) {
 		p.special(c, idx-3*n)
 	case idx < 3*n+c14Specials+len(c14DevTargets):
 		p.deviations(c, idx-3*n-c14Specials)
+	case idx < 3*n+c14Specials+len(c14DevTargets)+len(c14ExtHosts):
+		p.extensionBodies(c, idx-3*n-c14Specials-len(c14DevTargets))
 	default:
 		p.generated(c, idx)
 	}
@@ -543,6 +545,78 @@ var c14DevSubs = []string{
 	"units \"u\";", "default \"d\";", "default a;", "default \"a\"; default \"b\";", "config false;", "config true;", "mandatory true;", "mandatory false;",
 	"min-elements 1;", "max-elements 3;", "max-elements unbounded;", "unique \"u v\";", "unique \"u\";", "must \"1\";", "type int32;", "type string { length 1..3; }",
 	"units \"u\"; default \"d\";", "config false; mandatory true;", "",
+}
+
+// extension statements with a body, under every kind of statement: the body may hold anything, in particular leaves whose types have to be
+// resolved (a leafref path, a prefixed typedef name) from a position that is not a schema node. EXT is replaced by each body in turn.
+var c14ExtHosts = []struct{ name, text string }{
+	{"module", "EXT"},
+	{"revision", "revision 2019-01-01 { EXT }"},
+	{"identity", "identity i { EXT }"},
+	{"feature", "feature f { EXT }"},
+	{"typedef", "typedef t2 { type string; EXT }"},
+	{"extension", "extension e2 { EXT }"},
+	{"argument", "extension e3 { argument a3 { EXT } }"},
+	{"enum", "leaf en { type enumeration { enum a { EXT } } }"},
+	{"bit", "leaf bi { type bits { bit a { EXT } } }"},
+	{"type", "leaf ty { type string { EXT } }"},
+	{"range", "leaf ra { type int32 { range \"1..2\" { EXT } } }"},
+	{"length", "leaf le { type string { length \"1..2\" { EXT } } }"},
+	{"pattern", "leaf pa { type string { pattern \"a\" { EXT } } }"},
+	{"must", "leaf mu { type string; must \"1\" { EXT } }"},
+	{"when", "leaf wh { type string; when \"1\" { EXT } }"},
+	{"description", "leaf de { type string; description \"d\" { EXT } }"},
+	{"container", "container co { EXT }"},
+	{"leaf", "leaf lf { type string; EXT }"},
+	{"leaf-list", "leaf-list ll { type string; EXT }"},
+	{"list", "list li { key k; leaf k { type string; } EXT }"},
+	{"choice", "choice ch { EXT leaf cl { type string; } }"},
+	{"case", "choice ch { case ca { EXT leaf cl { type string; } } }"},
+	{"anydata", "anydata ad { EXT }"},
+	{"rpc", "rpc rp { EXT }"},
+	{"input", "rpc rp { input { EXT leaf i { type string; } } }"},
+	{"action", "container co { action ac { EXT } }"},
+	{"notification", "notification no { EXT }"},
+	{"grouping", "grouping g { EXT leaf gl { type string; } } container cg { uses g; }"},
+	{"unused-grouping", "grouping g { EXT leaf gl { type string; } }"},
+	{"uses", "grouping g { leaf gl { type string; } } container cg { uses g { EXT } }"},
+	{"refine", "grouping g { leaf gl { type string; } } container cg { uses g { refine gl { EXT } } }"},
+	{"augment", "container co { } augment \"/co\" { EXT leaf al { type string; } }"},
+	{"deviation", "leaf dv { type string; } deviation \"/dv\" { EXT deviate add { units u; } }"},
+	{"deviate", "leaf dv { type string; } deviation \"/dv\" { deviate add { EXT units u; } }"},
+	{"import", "import other { prefix o; EXT }"},
+}
+
+var c14ExtBodies = []string{
+	"m:e \"arg\";",
+	"m:e \"arg\" { leaf q { type leafref { path \"/x\"; } } }",
+	"m:e \"arg\" { leaf q { type leafref { path \"../x\"; } } }",
+	"m:e \"arg\" { leaf r { type m:td; } }",
+	"m:e \"arg\" { leaf r { type union { type m:td; type int32; } } }",
+	"m:e \"arg\" { leaf r { type identityref { base m:idb; } } }",
+	"m:e \"arg\" { container c { uses m:gx; } }",
+	"m:e \"arg\" { m:e \"nested\" { m:e \"deeper\"; } }",
+	"m:e \"arg\" { description \"d\"; leaf s { type string; default v; } }",
+	"m:nope \"arg\";",
+	"zz:e \"arg\";",
+}
+
+func (p c14) extensionBodies(c *core.Ctx, k int) {
+	h := c14ExtHosts[k]
+	outcomes := map[string]int{}
+	for i, body := range c14ExtBodies {
+		text := hdr("m") + "extension e { argument a; } typedef td { type string; } identity idb; grouping gx { leaf gxl { type string; } } leaf x { type string; } " + strings.Replace(h.text, "EXT", body, 1) + " }"
+		var op source.Opener
+		if h.name == "import" {
+			op = memOpener(map[string]string{"other": hdr("other") + "leaf o { type string; } }"})
+		}
+		o := c14Load(c, fmt.Sprintf("extension-body/%s/%d", h.name, i), "extension-body", op, text, "")
+		outcomes[o]++
+	}
+	for o, n := range outcomes {
+		c.Shape("extension-body/%s/%s/%d", h.name, o, n)
+	}
+	c.SetSample(map[string]interface{}{"extension-host": h.name, "text": h.text, "outcomes": outcomes})
 }
 
 func (p c14) deviations(c *core.Ctx, k int) {
